@@ -227,6 +227,7 @@ func checkC16(c CaseC16, info *Info) *Failure {
 		mxj.XmlCheckIsValid(true)
 		info.Class("validity check on")
 	}
+	bystanders()
 	info.Class("src:" + c.Src)
 	s := &intStream{v: c.Shuffle}
 	scratch := os.Getenv("VERIF_SCRATCH")
